@@ -7,6 +7,7 @@ package vsync
 
 import (
 	"sync"
+	"sync/atomic"
 	"unsafe"
 
 	"verif/vatomic"
@@ -27,6 +28,7 @@ type Mutex struct{ mu sync.Mutex }
 
 func acquire(op string, p unsafe.Pointer, try func() bool, block func()) {
 	h := vatomic.Hook
+	atomic.AddUint64(&vatomic.Count, 1) // a shimmed access like any other (observability calibration of the monitors)
 	if h == nil {
 		block()
 		return
